@@ -1,5 +1,7 @@
 use std::fmt::Debug;
 use std::hash::Hash;
+use std::sync::atomic::{AtomicBool, Ordering};
+use std::sync::Arc;
 use tracing::debug;
 use tracing::{info, instrument};
 
@@ -29,6 +31,11 @@ where
 
     /// The maximum size for goals.
     max_size: usize,
+
+    /// Set once `should_continue` has returned `false` during the current root
+    /// solve. Results computed from then on may be truncated and must not be
+    /// promoted to the cache.
+    interrupted: Arc<AtomicBool>,
 }
 
 pub(super) trait SolverStuff<K, V>: Copy
@@ -79,6 +86,7 @@ where
             search_graph: SearchGraph::new(),
             cache,
             max_size,
+            interrupted: Arc::new(AtomicBool::new(false)),
         }
     }
 
@@ -116,6 +124,20 @@ where
             self.search_graph.rollback_to(DepthFirstNumber::MIN);
         }
         let minimums = &mut Minimums::new();
+        let interrupted = self.interrupted.clone();
+        interrupted.store(false, Ordering::Relaxed);
+        // Once the caller has asked us to stop, stay stopped for the rest of this
+        // root solve, so that every goal visited from then on is cut short alike.
+        let should_continue = move || {
+            if interrupted.load(Ordering::Relaxed) {
+                return false;
+            }
+            let go_on = should_continue();
+            if !go_on {
+                interrupted.store(true, Ordering::Relaxed);
+            }
+            go_on
+        };
         self.solve_goal(canonical_goal, minimums, solver_stuff, should_continue)
     }
 
@@ -186,7 +208,8 @@ where
             // cache now. This is a sort of hack to alleviate the
             // worst of the repeated work that we do during tabling.
             if subgoal_minimums.positive >= dfn {
-                if let Some(cache) = &mut self.cache {
+                let interrupted = self.interrupted.load(Ordering::Relaxed);
+                if let (Some(cache), false) = (&mut self.cache, interrupted) {
                     self.search_graph.move_to_cache(dfn, cache);
                     debug!("solve_reduced_goal: SCC head encountered, moving to cache");
                 } else {
